@@ -11,6 +11,8 @@ def stepC02 (toks : List String) : String :=
   | "sr" :: _ => Hive.Stream.stepLine toks
   | "sk" :: _ => Hive.Stream.stepLine toks
   | "j" :: _ => Hive.JsonDec.stepLine toks
+  | "nx" :: _ => Hive.JsonDec.stepLine toks
+  | "jt" :: _ => Hive.JsonDec.stepLine toks
   | "x" :: _ => "oracle-only"
   | _ => "bad-op"
 
